@@ -403,6 +403,25 @@ impl C02 {
                 }
             }
         }
+        // the token object as seal returns it, handed straight to unseal (no text in between): right key
+        // and assertion, another principal's key, another / a missing / an added assertion
+        {
+            let other = b.family_keys(bk.family(), false).unwrap();
+            let (skey, ukey, okey) = if purpose == Purp::Local { (fk.local, fk.local, other.local) } else { (fk.secret, fk.public, other.public) };
+            let m = b.bytes(24);
+            let ft = b.bytes(5);
+            let a = if bk.has_aad() { Bytes::hex(b"assertion") } else { Bytes::empty() };
+            let mut cases = vec![(ukey, a.clone(), a.clone()), (okey, a.clone(), a.clone())];
+            if bk.has_aad() {
+                cases.push((ukey, a.clone(), Bytes::hex(b"assertioN")));
+                cases.push((ukey, a.clone(), Bytes::empty()));
+                cases.push((ukey, Bytes::empty(), a.clone()));
+            }
+            for (uk, a1, a2) in cases {
+                let rng = b.healthy_rng();
+                b.push(Step::ObjectRoundtrip { node: 0, purpose, skey, ukey: uk, msg: m.clone(), footer: ft.clone(), aad_seal: a1, aad_unseal: a2, rng });
+            }
+        }
         // header surgery: each piece of the header (version tag, purpose with either or both dots, the whole
         // header, single characters) written twice, three times, or removed
         {
